@@ -27,7 +27,7 @@ PROPS = {
                 "ThreadSanitizer build reports them on the schedules that were run; absence of a report is not a proof of absence",
         rule="each case = N in {2,4,8} threads released together by a spin barrier in a fresh process (nothing of the library has run there but the assume_valid "
              "constructors of the shared objects, so first uses are concurrent), three start disciplines (aligned, random yields, staggered), each thread running a seeded "
-             "program of 200..4000 operations from one of 7 mixes over 31 operation classes (compare/compare_i/compare_n, find/find_last/contains/starts/ends case-sensitive "
+             "program of 150..1500 operations from one of 7 mixes over 31 operation classes (compare/compare_i/compare_n, find/find_last/contains/starts/ends case-sensitive "
              "and -insensitive, substr/left/right/trim, before/after, to_upper/to_lower, replace, split, tokenize, UTF-16/32/wchar/Latin-1 conversions both ways, hash/hash_i, "
              "to_int..to_double/to_bool, hex/base64 encode+decode, ST::format with every argument class incl. padded fields and floats, ST::printf to a thread-private "
              "open_memstream FILE* with a per-thread pad character and pad widths 17..64, string_stream <<, ostream <<, and construction/copy/move/append/set/clear of "
